@@ -102,7 +102,8 @@ def run(W, chk):
         el = vfield(vfield(A.ret if A.ret is not None else EMPTY, "messages"), "[*]")
         plain = Val(el.atoms, {k: f for k, f in el.fields.items() if k != "msg"})
         wrapped = vfield(el, "msg")
-        ro = {o for o in all_origins(vfield(el, "reply_on")) if o != "Const(Response)"}
+        # (origins ending in `.reply_on` are plain messages sharing the list with the wrapped ones: they have no reply mode)
+        ro = {o for o in all_origins(vfield(el, "reply_on")) if o != "Const(Response)" and not o.endswith(".reply_on")}
         chk.expect(len(refunds) >= 1 and len(errs) == len(refunds) and "Store(FARMS).owner" in recipients(wrapped)
                    and "Store(FARMS).owner" not in recipients(plain) and ro == {"Const(Error)"}, "ERR-refund-tolerated", "/".join(vp),
                    "every close refund is sent as reply_on_error (a failing refund cannot block the close or the new farm)",
